@@ -16,6 +16,28 @@ from .rules_arith import agg, fact_strs, group_by_node, on_path, on_path_h, src
 H = "helpers"
 
 
+def _closures(func):
+    """Local functions (nested `def`, `lambda`) and generator helpers that survive normalisation: code the rules do not read.  A rule
+    that found NOTHING in a function that has such closures cannot say the thing is missing."""
+    out = []
+    for n in ast.walk(func.node):
+        if n is func.node:
+            continue
+        if isinstance(n, (ast.FunctionDef, ast.AsyncFunctionDef)):
+            out.append("def %s" % n.name)
+        elif isinstance(n, ast.Lambda):
+            out.append("lambda (line %d)" % n.lineno)
+    return out
+
+
+def _absent(func, why):
+    """(status, detail) for an obligation whose subject was not found in `func`."""
+    cl = _closures(func)
+    if cl:
+        return None, "%s -- but the function defines %s, which the rule does not read: undecided" % (why, ", ".join(cl[:3]))
+    return False, why
+
+
 def _process_calls(func):
     """ctx.Process(target=..., args=..., kwargs=...) calls in func -> [(call, target name, args tuple node)]"""
     out = []
@@ -494,6 +516,9 @@ def rule_nrecs(ctx):
             continue
         fl = passes(r)
         okk = len(fl) == 1
+        if not fl and _closures(wk):
+            res.append(_absent(wk, "0 finalisation passes on a path that returns") + (fact_strs(r),))
+            continue
         res.append((okk, "one pass over the local sketches adds the count" if okk else "%d finalisation passes on a path that returns" % len(fl), fact_strs(r)))
     agg(ctx, "nrecs", wk, fin[0].node if fin else wk.node, "for local_sketch in local_sketches", "every local sketch receives the count exactly once before the worker returns", res or [(False, "the worker never returns", [])])
     res = []
@@ -520,7 +545,7 @@ def rule_nrecs(ctx):
             res.append((bool(ok1 and ok2), "n_added_records[1] += %s" % accname if ok1 and ok2 else
                         ("%d updates per sketch" % len(mine) if not ok1 else "the update is not `<this sketch>.n_added_records[1] += %s`" % accname), fact_strs(le)))
     agg(ctx, "nrecs", wk, fin[0].node if fin else wk.node, "local_sketch.n_added_records[1] += n_records",
-        "at the pill the worker adds its record count to slot 1 of each sketch, once", res or [(False, "no update of n_added_records found", [])])
+        "at the pill the worker adds its record count to slot 1 of each sketch, once", res or [_absent(wk, "no update of n_added_records found") + ([],)])
 
 
 def rule_cb_guard(ctx):
@@ -679,9 +704,10 @@ def rule_joinfirst(ctx):
                 joins.append(i)
     merges = [(i, c) for i, s in enumerate(body) for c in calls_in(s) if dotted(c.func) == "parallel_merging"]
     okk = bool(joins) and bool(merges) and min(joins) < min(i for i, _ in merges)
+    st_, why_ = (True, "") if okk else (_absent(pa, "no loop joining every worker precedes the first merge") if not joins else
+                                       (False, "no loop joining every worker precedes the first merge"))
     ctx.ob("joinfirst", pa, body[joins[0]] if joins else pa.node, "for p in workers: p.join()  before  parallel_merging(...)",
-           "every worker has finished before any of its sketches is merged", okk,
-           "" if okk else "no loop joining every worker precedes the first merge")
+           "every worker has finished before any of its sketches is merged", st_, why_)
     # the descriptors handed to a worker are in the documented order (alphabetical: cms, hh, hll) -- the callback receives its
     # sketches positionally in exactly that order
     F = facts_of(ctx)
@@ -1629,8 +1655,8 @@ def rule_dead(ctx):
     pa, wl, mon = _monitor(ctx)
     ctx.analysed_funcs.add(pa.key)
     if mon is None or wl is None:
-        ctx.ob("dead-detect", pa, pa.node, "worker monitor", "parallel_add watches its workers' exit codes", False,
-               "no loop over the workers inspecting .exitcode: a dead worker goes unnoticed")
+        st_, why_ = _absent(pa, "no loop over the workers inspecting .exitcode: a dead worker goes unnoticed")
+        ctx.ob("dead-detect", pa, pa.node, "worker monitor", "parallel_add watches its workers' exit codes", st_, why_)
         return
     # every worker inspected: a for over the whole worker list inside the monitor
     fors = [n for n in ast.walk(mon) if isinstance(n, ast.For) and wl in {x.id for x in ast.walk(n.iter) if isinstance(x, ast.Name)}
